@@ -193,8 +193,8 @@ static size_t do_ccall(int kind, size_t n, size_t cap)
     print_ret("ret", r);
     printf(" consumed=%llu produced=%llu", (unsigned long long)consumed, (unsigned long long)out.pos);
     print_recs();
-    printf(" fc=%u fd=%u nlog=%u wst=%d stpos=%u stidx=%u", zcs->frameCSize, zcs->frameDSize, zcs->framelog.size,
-           zcs->writingSeekTable, zcs->framelog.seekTablePos, zcs->framelog.seekTableIndex);
+    printf(" fc=%u fd=%u nlog=%u wst=%d pend=%d stpos=%u stidx=%u", zcs->frameCSize, zcs->frameDSize, zcs->framelog.size,
+           zcs->writingSeekTable, zcs->frameEndPending, zcs->framelog.seekTablePos, zcs->framelog.seekTableIndex);
     if (kind == 's' && zcs->writingSeekTable) {   /* bytes this call appended while in the seek-table phase: the last (produced - inner e produced) bytes */
         printf(" out="); print_hex(ob, out.pos);
     }
